@@ -14,6 +14,15 @@ from .. import impl
 
 CFG = gen.with_cfg(control=frozenset(['cut', ';', 'ite', '->', 'not']), meta=True, library=True, max_clauses=6, min_clauses=2, max_body=6)
 SEEDS = ['0', '1', '2', '3', '4242', 'random']
+# "in another process": the workers also differ in what a process inherits besides the hash seed - the encoding of the
+# standard streams and the locale, the optimisation level of the interpreter, the working directory and the time zone
+WORKER_ENV = [{},
+              {'PYTHONIOENCODING': 'ascii', 'LC_ALL': 'C', 'LANG': 'C', 'PYTHONUTF8': '0', 'PYTHONCOERCECLOCALE': '0'},
+              {'PYTHONOPTIMIZE': '1'},
+              {'PYTHONIOENCODING': 'latin-1', 'TZ': 'Pacific/Kiritimati', 'VERIF_WORKER_CWD': 'scratch'},
+              {'PYTHONOPTIMIZE': '2', 'PYTHONIOENCODING': 'utf-16'},
+              {}]
+WORKER_DESCR = ['hashseed=%s %s' % (s, ' '.join('%s=%s' % kv for kv in sorted(e.items()))) for s, e in zip(SEEDS, WORKER_ENV)]
 _workers = {}
 
 
@@ -24,9 +33,16 @@ def workers():
         _workers['pid'] = pid
         _workers['procs'] = []
         for s in SEEDS:
+            extra = dict(WORKER_ENV[len(_workers['procs'])])
             env = dict(os.environ, PYTHONHASHSEED=s, PYTHONDONTWRITEBYTECODE='1')
+            cwd = None
+            if extra.pop('VERIF_WORKER_CWD', None):
+                import tempfile
+                cwd = tempfile.mkdtemp(prefix='verif-c18-cwd-')
+            env.update(extra)
+            # the wire format is ASCII (JSON with escapes in, hex digests out), whatever encoding the worker's streams have
             p = subprocess.Popen([sys.executable, os.path.join(VERIF, 'harness', 'compile_worker.py')], stdin=subprocess.PIPE,
-                                 stdout=subprocess.PIPE, stderr=subprocess.DEVNULL, env=env, text=True, encoding='utf8', errors='backslashreplace')
+                                 stdout=subprocess.PIPE, stderr=subprocess.DEVNULL, env=env, cwd=cwd)
             _workers['procs'].append(p)
         atexit.register(stop_workers)
     return _workers['procs']
@@ -43,18 +59,18 @@ def stop_workers():
 
 
 def ask(p, text, debug_filename=False):
-    p.stdin.write(json.dumps({'text': text, 'debug_filename': debug_filename}) + '\n')
+    p.stdin.write((json.dumps({'text': text, 'debug_filename': debug_filename}) + '\n').encode('ascii'))
     p.stdin.flush()
-    r = p.stdout.readline().strip()
+    r = p.stdout.readline().decode('ascii', 'replace').strip()
     if not r:
         raise HarnessError('compile worker died')
     return r
 
 
 def ask_cli(p, texts):
-    p.stdin.write(json.dumps({'cli': texts}) + '\n')
+    p.stdin.write((json.dumps({'cli': texts}) + '\n').encode('ascii'))
     p.stdin.flush()
-    r = p.stdout.readline().strip()
+    r = p.stdout.readline().decode('ascii', 'replace').strip()
     if not r:
         raise HarnessError('compile worker died')
     return r
@@ -109,10 +125,10 @@ class C18(Prop):
     rule = ('program A (several predicates, many fresh variables per clause, _, several if-then-else / negation labels), '
             'a program B derived from A (A\'s clauses behind an extra if-then-else clause, reversed, or a subset - the same '
             'clause text at another label / variable offset), and an unrelated program C (sometimes malformed, sometimes '
-            'compiled with all debug options, sometimes failing inside the clause compiler, sometimes compiled from a '
+            'sometimes with atoms outside ASCII, sometimes compiled with all debug options, sometimes failing inside the clause compiler, sometimes compiled from a '
             'file with default options). In-process order: A, B, C, A, A with debug_filename. One case in five: the texts are also the source files of one command-line run (-o) in every worker, whose exit status and output file must be the same in all of them. Oracles: the second compilation of A is '
             'byte-identical to the first; six persistent worker processes started with PYTHONHASHSEED 0, 1, 2, 3, 4242 and '
-            'random, each with a DIFFERENT compilation history (even workers are only ever asked for A-texts, odd ones for '
+            'random and with different inherited settings (standard streams in ASCII / Latin-1 / UTF-16 with the C locale, python -O and -OO, another working directory and time zone), each with a DIFFERENT compilation history (even workers are only ever asked for A-texts, odd ones for '
             'B-texts), return the same SHA-256 as the in-process compilations of A and of B. Once per run: every .prolog '
             'file of the repository under all workers, and pairs of compilations interleaved on two threads vs. solo. '
             'Non-trivial = A has a clause with >= 2 fresh variables, >= 2 _ or >= 2 if-then-else/negation; distinct = '
@@ -162,8 +178,14 @@ class C18(Prop):
             c += 'oops( .\n'
         elif cmode == 'too-large':
             c += 'big :- ' + ', '.join('g(X%d)' % i for i in range(25)) + '.\n'
-        extra = src.n(6)
-        if extra == 4:
+        extra = src.n(7)
+        if extra == 6:
+            # atoms outside ASCII (and outside Latin-1): what is written for them must not depend on the process
+            add = src.pick(["book('五輪書', 'é').\n", "city('Zürich').\ncity('Kraków').\n", "sym('→', '\\\\', 'ß').\n", "greet('Привет', X) :- X = 'мир'.\n"])
+            a, b = a + add, add + b
+            if src.n(2):
+                c = add + c
+        elif extra == 4:
             # predicate names that differ only in case, or only in quoting / a trailing digit: any ordering or grouping
             # of the output by a derived key meets a tie here
             twins = src.pick([('nextTo', 'nextto'), ("'Foo'", 'foo'), ('aB', 'ab', "'Ab'", "'AB'"), ('p_1', 'p', "'P'"), ('q1', "'Q1'", 'q_1')])
@@ -239,13 +261,13 @@ class C18(Prop):
         for wi in (0, 1, 5):          # hash seeds 0 (as in this process), 1 and random
             r = ask(ws[wi], a, debug_filename=True)
             if r != h_a3:
-                return FAIL('other-process-differs:A-with-debug_filename', dict(detail, worker_hashseed=SEEDS[wi], in_process=h_a3[:16], worker=r[:16]))
+                return FAIL('other-process-differs:A-with-debug_filename', dict(detail, worker_process=WORKER_DESCR[wi], in_process=h_a3[:16], worker=r[:16]))
         for i, p in enumerate(ws):
             text, h, which = (a, h_a1, 'A') if i % 2 == 0 else (b, h_b, 'B')
             r = ask(p, text)
             if r != h:
                 kind = 'hash-seed-or-process' if SEEDS[i] != '0' else 'compilation-history'
-                return FAIL('other-process-differs:' + which, dict(detail, worker_hashseed=SEEDS[i], in_process=h[:16], worker=r[:16], suspected=kind))
+                return FAIL('other-process-differs:' + which, dict(detail, worker_process=WORKER_DESCR[i], in_process=h[:16], worker=r[:16], suspected=kind))
         cli_class = []
         if case.get('cli'):
             texts = [a, b, c, a] if len(a) % 2 else [b, a, c]
@@ -253,7 +275,7 @@ class C18(Prop):
             if any(r.startswith('EXC:') for r in rs):
                 raise HarnessError('command-line run in a compile worker failed: %r' % rs)
             if len(set(rs)) != 1:
-                return FAIL('command-line-output-differs-between-processes', dict(detail, sources='A B C A' if len(a) % 2 else 'B A C', results=dict(zip(SEEDS, (r[:24] for r in rs)))))
+                return FAIL('command-line-output-differs-between-processes', dict(detail, sources='A B C A' if len(a) % 2 else 'B A C', results=dict(zip(WORKER_DESCR, (r[:24] for r in rs)))))
             cli_class = ['command-line:%d-sources' % len(texts)]
         import re
         nt = False
@@ -280,7 +302,7 @@ class C18(Prop):
                 continue
             h = local(text)
             case = {'a': text, 'b': '', 'c': '', 'cmode': 'repository-file:' + os.path.relpath(fn, impl.REPO)}
-            bad = [SEEDS[i] for i, p in enumerate(ws) if ask(p, text) != h]
+            bad = [WORKER_DESCR[i] for i, p in enumerate(ws) if ask(p, text) != h]
             if bad:
                 out.append((case, FAIL('other-process-differs:repository-file', {'file': fn, 'hashseeds': bad})))
             else:
